@@ -699,6 +699,19 @@ func cmdCheck(args []string) int {
 			}
 			if ok {
 				validated++
+			} else if rr != nil && !engineOnly && rr.Mismatch == "" && !rr.Assume && (strings.HasPrefix(rr.Failed, spec.Property+".") || rr.Panic != "") && !strings.Contains(rr.Failed, ".setup") {
+				// the real code, run natively on the engine's witness input, fails one of the
+				// property's assertions (or panics) although the engine's path passed: the concrete
+				// run is the ground truth (an environment model was more forgiving than reality)
+				what := rr.Failed
+				if what == "" {
+					what = "panic " + rr.Panic
+				}
+				path := saveTape(spec.Property, "", p.tape)
+				fmt.Printf("VIOLATION property=%s replay=%s\n", spec.Property, path)
+				fmt.Printf("  harness=%s assertion=%s (found by the native replay of the engine's witness for %s; not predicted by the engine's models)\n", p.h.Name, what, p.label)
+				nViol++
+				exitCode = 1
 			} else if rr != nil && !engineOnly {
 				disagree++
 				fmt.Printf("ENGINE-DISAGREE property=%s cover %s/%s not reproduced natively: %s\n", spec.Property, p.h.Name, p.label, rrString(rr))
